@@ -81,6 +81,12 @@ CHECKS = {
                      'kernel table',
                 note='trusted: z3/pathex, stub kernel and scripted sockets (readiness derived from the peer script); one recorded known '
                      'finding (failed write after a peer reset drops unread data)'),
+    'C13': dict(engine='pathex', technique=TECH, ref='DESIGN.md 4/C13',
+                text='bounded symbolic execution of the real HTTP parser and HTTP components: for every message of a request/response '
+                     'grammar the cut positions are z3 Ints ranging over every byte boundary (single cuts, byte-at-a-time; pairs of '
+                     'cuts in the thorough tier); the request events seen by handlers and the bytes written back are compared with '
+                     'one-piece delivery (differential oracle), for the server and for the client component',
+                note='trusted: z3/pathex, the web rig (sink in place of the TCP server); messages limited to the grammar in harness/c13.py'),
 }
 
 NOT_YET = {
